@@ -40,6 +40,20 @@ Theorem C14_phis_at_head : forall c idom i b,
 Proof. exact ssa_check_phis_at_head. Qed.
 Print Assumptions C14_phis_at_head.
 
+(* every read is dominated by its definition: on EVERY path from the entry that
+   ends in the block of the read, the version the read names has been assigned
+   by a statement of that path (or is the parameter's initial version, or the
+   fresh base version of an element-wise update of a never-assigned array) *)
+Theorem C14_read_defined_on_every_path : forall c idom pi bi b s v n,
+  ssa_check c idom = true -> path_from_entry c (pi ++ [bi]) ->
+  nth_error (c_blocks c) bi = Some b -> In s (b_stmts b) -> is_phi_stmt s = false ->
+  In v (stmt_reads s) -> vn_version v = Some n ->
+  update_base s = Some v \/
+  vget (params_map (c_params c)) (key_of v) = Some n \/
+  defined_on c (pi ++ [bi]) (key_of v) n.
+Proof. exact ssa_check_read_defined_on_path. Qed.
+Print Assumptions C14_read_defined_on_every_path.
+
 (* the local conditions alone (without trusting how the maps were obtained) suffice *)
 Theorem C14_local_conditions_suffice : forall c infos,
   infos_ok infos c = true ->
